@@ -461,10 +461,13 @@ def main():
 
     # ---- evidence
     samples = []
-    for i in list(range(min(2, len(cases)))) + ([len(cases) // 2, len(cases) - 1] if len(cases) > 4 else []):
-        samples.append({"case": cases[i], "impl": (impl_t.get("debug") or [""] * len(cases))[i][:300],
-                        "model": (model_t or [""] * len(cases))[i][:300] if model_t else "",
-                        "verdict": verdicts[i][:200] if verdicts else ""})
+    n_run = min(len(cases), len(verdicts) if verdicts else len(cases),
+                len(impl_t.get("debug") or cases), len(model_t) if model_t else len(cases))
+    def _at(lst, i):
+        return lst[i][:300] if lst and i < len(lst) else ""
+    for i in list(range(min(2, n_run))) + ([n_run // 2, n_run - 1] if n_run > 4 else []):
+        samples.append({"case": cases[i][:2000], "impl": _at(impl_t.get("debug"), i),
+                        "model": _at(model_t, i), "verdict": _at(verdicts, i)})
     tb = ["Coq 8.16.1 kernel (coqc); vm_compute used inside proofs; native_compute not used",
           "axioms per theorem (Print Assumptions): " + json.dumps(proofs.get("axioms", {}), sort_keys=True),
           "hand-written model props/%s/coq/Model.v tied to /repo by the correspondence run of this check" % p.id,
